@@ -438,3 +438,86 @@ func TestOnceValue(t *testing.T) {
 	})
 	mustBeClean(t, f, first)
 }
+
+// The rendezvous of an unbuffered channel is atomic: a send clause of a select commits only
+// together with a receiver, and a receiver that leaves through another clause (a cancelled
+// context) must not leave the sender behind with a half-made offer.
+func TestSelectSendMeetsSelectReceiveOrBothLeave(t *testing.T) {
+	var c, done *vchan.Chan[int]
+	var mu vsync.Mutex
+	f, first := run(t, 3, func() { c, done, mu = vchan.Make[int](), vchan.Make[int](), vsync.Mutex{} }, func(s *sched.Sim, task int) {
+		switch task {
+		case 0: // hands the lock over, or gives it back when the other side has gone
+			mu.Lock()
+			switch vchan.Select(false, vchan.SendCase(c, 1), vchan.RecvCase(done)) {
+			case 0: // the receiver owns the lock now
+			case 1:
+				mu.Unlock()
+			}
+		case 1: // waits for the hand-over or for the cancellation
+			switch vchan.Select(false, vchan.RecvCase(c), vchan.RecvCase(done)) {
+			case 0:
+				vrace.W(1)
+				mu.Unlock()
+			}
+		case 2: // cancels at some point, then needs the lock itself
+			done.Close()
+			mu.Lock()
+			vrace.W(1)
+			mu.Unlock()
+		}
+	})
+	mustBeClean(t, f, first)
+}
+
+// A select that receives from two channels is served by one sender at a time: no value is lost
+// and none arrives twice.
+func TestSelectReceiverServedOncePerRound(t *testing.T) {
+	var a, b *vchan.Chan[int]
+	sum := 0
+	f, first := run(t, 3, func() { a, b = vchan.Make[int](), vchan.Make[int]() }, func(s *sched.Sim, task int) {
+		switch task {
+		case 0:
+			got := 0
+			for i := 0; i < 2; i++ {
+				switch vchan.Select(false, vchan.RecvCase(a), vchan.RecvCase(b)) {
+				case 0:
+					got += a.Selected1()
+				case 1:
+					got += b.Selected1()
+				}
+			}
+			sum += got
+		case 1:
+			vchan.Select(false, vchan.SendCase(a, 1))
+		case 2:
+			b.Send(10)
+		}
+	})
+	mustBeClean(t, f, first)
+	if sum != 11*seeds {
+		t.Fatalf("received sum %d, want %d", sum, 11*seeds)
+	}
+}
+
+// A plain sender whose offer a select passes over keeps waiting for the next receiver.
+func TestPlainSendSurvivesASelectThatGoesElsewhere(t *testing.T) {
+	var c, other *vchan.Chan[int]
+	f, first := run(t, 3, func() { c, other = vchan.Make[int](), vchan.Make[int](1) }, func(s *sched.Sim, task int) {
+		switch task {
+		case 0:
+			vrace.W(1)
+			c.Send(7)
+		case 1:
+			other.Send(1)
+			vchan.Select(false, vchan.RecvCase(c), vchan.RecvCase(other)) // may take either
+		case 2:
+			// whoever is left: the plain send if the select went elsewhere, else the buffered value
+			switch vchan.Select(false, vchan.RecvCase(c), vchan.RecvCase(other)) {
+			case 0:
+				vrace.R(1)
+			}
+		}
+	})
+	mustBeClean(t, f, first)
+}
